@@ -197,6 +197,95 @@ pub fn run(tier: Tier, _replay: Option<String>) -> i32 {
     if tot.stop_observed_runs == 0 {
         rep.machinery_error("the stop flag was never set in any execution (vacuous)".into());
     }
+    // ---- 4. TLA+ model of the shutdown protocol: TLC over all interleavings + trace conformance with the code
+    let mut tla_json = Vec::new();
+    let mut tla_traces = 0u64;
+    {
+        use crate::tla::{self, Consts};
+        let models = std::path::PathBuf::from("/verif/models");
+        let work = scratch().join("tlc");
+        let base = Consts { nv: 2, batches: 4, cap_d: 1, cap_v: 1, err_at: vec![], err_cap: 0, fatal_at: 0, with_signal: true };
+        let mut verify: Vec<(String, Consts)> = vec![
+            ("signal, caps 1/1".into(), base.clone()),
+            ("error cap 2 with errors in batches 1-3, caps 1/1".into(), Consts { err_at: vec![1, 2, 3], err_cap: 2, with_signal: false, ..base.clone() }),
+            ("fatal framing error at batch 3, caps 1/1".into(), Consts { fatal_at: 3, with_signal: false, ..base.clone() }),
+        ];
+        if tier.is_thorough() {
+            for (cd, cv) in [(1usize, 2usize), (2, 1), (2, 2)] {
+                verify.push((format!("signal, caps {cd}/{cv}"), Consts { cap_d: cd, cap_v: cv, ..base.clone() }));
+            }
+            verify.push(("signal + error cap 1 + fatal at 4, 3 validators, 5 batches".into(), Consts { nv: 3, batches: 5, err_at: vec![2, 3], err_cap: 1, fatal_at: 4, ..base.clone() }));
+            verify.push(("error cap 1, caps 2/2, with signal".into(), Consts { cap_d: 2, cap_v: 2, err_at: vec![1, 4], err_cap: 1, ..base.clone() }));
+        }
+        for (label, c) in &verify {
+            match tla::run_tlc(&models, &work, c, false) {
+                Err(e) => rep.machinery_error(format!("TLC could not be run ({label}): {e}")),
+                Ok(o) => {
+                    tla_json.push(json!({"model_instance": label, "tlc_states_generated": o.states, "tlc_distinct_states": o.distinct, "no_error": o.ok}));
+                    if !o.ok {
+                        rep.violation(Violation { signature: "tla:model-property-violated".into(), description: format!("TLC reports an error for the shutdown model ({label}): {}", o.message), replay: json!({"constants": format!("{:?}", c)}) });
+                    }
+                }
+            }
+        }
+        // conformance: implementation traces (all schedules within the bound) are paths of the model's state graph
+        let caps: Vec<usize> = if tier.is_thorough() { vec![1, 2] } else { vec![1] };
+        for cap in caps {
+            let c = Consts { cap_d: cap, cap_v: cap, ..base.clone() };
+            let g = match tla::run_tlc(&models, &work, &c, true) {
+                Ok(o) if o.ok && o.graph.is_some() => o.graph.unwrap(),
+                Ok(o) => {
+                    rep.machinery_error(format!("TLC dump failed (caps {cap}): {}", o.message));
+                    continue;
+                }
+                Err(e) => {
+                    rep.machinery_error(format!("TLC dump failed (caps {cap}): {e}"));
+                    continue;
+                }
+            };
+            let (_, clean1) = streams::multi_link(2, 1, 0, false, false); // 2 links x (page + stop) = 4 packets
+            let scn = Scn { mode: Mode::AllIts, mute: false, max_errors: 0, signal: true, cap: 1, input: Arc::new(clean1), scratch: scratch(), toml: false };
+            let cfg = scenario::config(&scn);
+            let basep = Policy { prefix: vec![], max_steps: 30_000, yield_on_unbounded_send: false, cap_override: Some(cap) };
+            let mut covered_edges: std::collections::HashSet<(i64, String, i64)> = Default::default();
+            let mut covered_states: std::collections::HashSet<i64> = Default::default();
+            let mut failures: Vec<(Vec<usize>, String)> = Vec::new();
+            let mut n = 0u64;
+            let mut run = |prefix: &[usize]| scenario::run(&scn, cfg, policy_for(prefix, &basep)).0;
+            let st = explore(bound, 2_000_000, &mut run, &mut |prefix, r| {
+                n += 1;
+                if r.outcome != Outcome::Completed {
+                    return true; // judged by part 1
+                }
+                let labels = tla::project(&r.steps, &r.thread_names);
+                match tla::walk(&g, &labels) {
+                    Ok(used) => {
+                        for e in used {
+                            covered_states.insert(e.0);
+                            covered_states.insert(e.2);
+                            covered_edges.insert(e);
+                        }
+                    }
+                    Err((i, l, allowed)) => {
+                        if failures.len() < 3 {
+                            failures.push((prefix.to_vec(), format!("step {i} of the projected trace is `{l}`, the model allows only {:?} there; trace {:?}", allowed, labels)));
+                        }
+                    }
+                }
+                true
+            });
+            tot.executions += st.executions;
+            tot.steps += st.steps;
+            tla_traces += n;
+            for (p, d) in failures {
+                rep.violation(Violation { signature: "tla:implementation-trace-not-in-model".into(), description: format!("{d} [queue capacity {cap}]"), replay: json!({"schedule": p, "cap": cap}) });
+            }
+            tla_json.push(json!({"conformance_instance": format!("signal, caps {cap}/{cap}, 4 batches of one packet, 2 links"), "model_states": g.n_states, "model_edges": g.n_edges, "implementation_traces_validated": n, "model_states_covered": covered_states.len(), "model_edges_covered": covered_edges.len()}));
+            if covered_edges.len() < 10 {
+                rep.machinery_error("trace conformance covered fewer than 10 model edges (vacuous)".into());
+            }
+        }
+    }
     // ---- 2. stdout closed after N bytes
     let mut closure_total = 0u64;
     let mut closure_json = Vec::new();
@@ -246,6 +335,8 @@ pub fn run(tier: Tier, _replay: Option<String>) -> i32 {
     rep.cov("full_bounded_queue_reached", json!(tot.full_queue_seen));
     rep.cov("deviation_bound", json!(bound));
     rep.cov("stdout_closure", json!(closure_json));
+    rep.cov("tla", json!(tla_json));
+    rep.cov("tla_implementation_traces_walked_through_model_graph", json!(tla_traces));
     rep.cov("channel_conformance_sequences", json!(nseq));
     rep.cov("channel_conformance_depth", json!(depth));
     rep.sample(json!({"schedule": [0, 0, 0, 3], "meaning": "default choices, then the 4th enabled thread (e.g. Signal) at the 4th scheduling point"}));
